@@ -72,9 +72,10 @@ def make_custom(name):
             import numpy as np
 
             return np.int64(scale * lev(str(a), str(b)))
-    elif name == "anti":  # ranks candidates the other way round than Levenshtein does
+    elif name == "anti":  # a metric that ranks (most) candidates the other way round than Levenshtein does: 0 for equal strings, else 3 - lev / 2
         def dist(a, b):
-            return max(0, 6 - scale * lev(str(a), str(b)))
+            a, b = str(a), str(b)
+            return 0 if a == b else max(1.0, 3 - 0.5 * scale * lev(a, b))
     elif name == "content":  # depends on composition, not on edits: a far candidate can be "closer" than a true neighbour
         def dist(a, b):
             a, b = str(a), str(b)
